@@ -192,6 +192,7 @@ pub struct Oracle {
     first_seen: BTreeMap<[u8; 32], tokio::time::Instant>,
     removal_seen: BTreeMap<[u8; 32], ReasonView>,
     last_abs: String,
+    last_detail: String,
     // statistics
     promotions: u64,
     demotions: u64,
@@ -232,6 +233,7 @@ impl Oracle {
             first_seen: BTreeMap::new(),
             removal_seen: BTreeMap::new(),
             last_abs: String::new(),
+            last_detail: String::new(),
             promotions: 0,
             demotions: 0,
             max_overlap: 0,
@@ -973,8 +975,21 @@ impl Oracle {
             .join(" ");
         if abs != self.last_abs {
             trace.abs(&abs);
-            trace.ev(&format!("  view [{abs}] removed={}", view.removal_cache.len()));
             self.last_abs = abs;
+        }
+        let detail = (0..self.addrs.len())
+            .map(|a| {
+                format!(
+                    "a{a}{:?}/{:?}",
+                    per_acct_pending[a].iter().map(|t| t.nonce).collect::<Vec<_>>(),
+                    per_acct_parked[a].iter().map(|t| t.nonce).collect::<Vec<_>>()
+                )
+            })
+            .collect::<Vec<_>>()
+            .join(" ");
+        if detail != self.last_detail {
+            trace.ev(&format!("  view {detail} removed={}", view.removal_cache.len()));
+            self.last_detail = detail;
         }
 
         // ---- I. roll over ---------------------------------------------------------------------------
